@@ -52,7 +52,10 @@ def run_for_property(prop, tier, seed):
     if os.environ.get('VX_NOCACHE') != '1':
         for h in names:
             try:
-                cached[h] = json.load(open(os.path.join(cdir, h + '.json')))
+                c = json.load(open(os.path.join(cdir, h + '.json')))
+                if c.get('status') == 'failed':
+                    continue   # failures are re-run so that this property's replay file is written by this run
+                cached[h] = c
             except Exception:
                 pass
     todo = [h for h in names if h not in cached]
@@ -82,6 +85,34 @@ def run_for_property(prop, tier, seed):
                 status = 'error: ' + out[-300:].replace('\n', ' ')
             _, bounded, bound, _ = HARNESSES[h]
             rec = dict(name=h, status=status, bounded=bounded, bound=bound, tail=out[-1500:] if status != 'ok' else '')
+            if status == 'failed':
+                # the verifier's counterexample, replayed natively on the real code: Kani writes a unit test with the
+                # concrete values into the scratch copy, `cargo kani playback` runs it
+                try:
+                    p2 = subprocess.run(['cargo', 'kani', '-Z', 'concrete-playback', '--concrete-playback=inplace', '--harness', h],
+                                        cwd=dst, env=env, stdout=subprocess.PIPE, stderr=subprocess.STDOUT, text=True, timeout=1800)
+                    src = open(os.path.join(dst, 'src', 'lib.rs')).read()
+                    m = re.search(r'fn (kani_concrete_playback_%s_\d+)\s*\(\s*\)\s*\{(.*?)kani::concrete_playback_run' % re.escape(h), src, re.S)
+                    if m:
+                        p3 = subprocess.run(['cargo', 'kani', 'playback', '-Z', 'concrete-playback', '--', m.group(1)],
+                                            cwd=dst, env=env, stdout=subprocess.PIPE, stderr=subprocess.STDOUT, text=True, timeout=1800)
+                        reproduced = 'test result: FAILED' in p3.stdout
+                        rec['witness'] = dict(concrete_values=' '.join(m.group(2).split())[:1500], playback_test=m.group(1),
+                                              replayed_on_real_code=reproduced,
+                                              playback_output=p3.stdout[-1200:])
+                        if not reproduced:
+                            rec['witness'] = None
+                except Exception as e:
+                    rec['witness_error'] = repr(e)
+                rdir = os.path.join(ROOT, 'evidence', 'replay')
+                os.makedirs(rdir, exist_ok=True)
+                rpath = os.path.join(rdir, '%s-kani-%s.json' % (prop, h))
+                json.dump(dict(property=prop, obligation='kani.' + h, verifier='kani/cbmc', verifier_cmd=' '.join(cmd), bounded=bounded, bound=bound,
+                               verifier_output=out[-4000:], witness=rec.get('witness'),
+                               note=('Kani counterexample replayed natively on the real crate (cargo kani playback): the harness assertion fails with the concrete values.'
+                                     if rec.get('witness') else 'Kani reports the harness FAILED; no concrete playback could be produced.')),
+                          open(rpath, 'w'), indent=1)
+                rec['replay'] = rpath
             cached[h] = rec
             if status in ('ok', 'failed'):
                 try:
